@@ -5,7 +5,7 @@
  *   fscanf("%<w>c", dst)  delivers the next w bytes of the CURRENT header line (it is an obligation that they exist: a field
  *             never straddles a line end) and remembers which field that was (g_last*);
  *   fgetc   delivers the next byte; after a '\n' the stream is at column 0 of the next line;
- *   fgets   (title line of ?readrb) delivers the rest of the current line including '\n', NUL-terminated;
+ *   fgets   libc semantics on the ghost file: at most size-1 bytes of the current line, through its '\n' if they fit, NUL-terminated;
  *   atoi    is an ORACLE for the numeric header fields: its argument must be the 14-column field fscanf delivered last,
  *           NUL-terminated at column 14, bytes unchanged; the result is the harness value of that field
  *           (line 2: in_l2[col/14], line 3: in_l3[col/14 - 1]); any other argument is an obligation failure.
@@ -61,15 +61,20 @@ int fgetc(FILE *fp) {
   return c;
 }
 char *fgets(char *s, int size, FILE *fp) {
-  int k, ok;
+  /* libc semantics on the ghost file, from ANY header position: at most size-1 bytes, stops after the '\n', NUL-terminated.
+   * (?readrb reads its title line with it; a reader that skips the rest of a header line with fgets is modelled faithfully:
+   * when the buffer is too small for the rest of the line the '\n' stays in the stream.) */
+  int k, ok, rest, take;
   __CPROVER_assert(fp == stdin, "fgets: reads the input stream");
-  ok = g_line == 0 && g_col == 0 && in_nl[0] + 2 <= size;
-  __CPROVER_assert(ok, "fgets: called for the title line only, with room for it");
+  ok = 0 <= g_line && g_line < NHL && 0 <= g_col && g_col <= in_nl[g_line] && in_nl[g_line] < LW - 1 && size >= 2;
+  __CPROVER_assert(ok, "fgets: called inside the header with room for at least one byte");
   if (!ok) __CPROVER_assume(0);
-#define CPG(k) if ((k) <= in_nl[0]) s[k] = in_hdr[0][k];
+  rest = in_nl[g_line] - g_col + 1;                 /* bytes up to and including the newline */
+  take = rest <= size - 1 ? rest : size - 1;
+#define CPG(k) if ((k) < take) s[k] = in_hdr[g_line][g_col + (k)];
   B80(CPG) CPG(80) CPG(81) CPG(82)
-  s[in_nl[0] + 1] = 0;
-  g_line = 1; g_col = 0;
+  s[take] = 0;
+  if (take == rest) { g_line++; g_col = 0; } else g_col += take;
   return s;
 }
 int atoi(const char *s) {
